@@ -17,26 +17,72 @@ from .loader import AnalysisError, World
 def variant(world: World, modname: str, edit: Callable[[ast.Module], None]) -> World:
     if modname not in world.modules:
         raise AnalysisError(f'variant: module {modname} not found')
+    if getattr(world, 'normalised', False):
+        return _tree_variant(world, {modname: edit})
     module = world.modules[modname]
-    tree = ast.parse(module.source)
+    tree = ast.parse(_source(world, module))
     edit(tree)
     ast.fix_missing_locations(tree)
-    overrides = dict(world.overrides)
+    overrides = _overrides(world)
     overrides[module.relpath] = ast.unparse(tree) + '\n'
     return World(world.root, overrides)
 
 
-def multi_variant(world: World, edits: dict[str, Callable[[ast.Module], None]]) -> World:
+def _tree_variant(world: World, edits: dict) -> World:
+    """Variant of a normalised world: the edit is applied to copies of the trees the rules see (inlined nodes keep the
+    module they were written in, which an unparse / re-parse round trip would lose)."""
+    from .normalise import clone, world_from_trees
+
+    trees = {n: clone(m.tree, n) for n, m in world.modules.items()}
+    for modname, edit in edits.items():
+        edit(trees[modname])
+        ast.fix_missing_locations(trees[modname])
+        for node in ast.walk(trees[modname]):
+            if not getattr(node, '_omod', None):
+                node._omod = modname  # type: ignore[attr-defined]
+    return world_from_trees(world, trees)
+
+
+def _source(world: World, module) -> str:
+    """The text a variant starts from: the module as the rules see it (normalised trees are unparsed)."""
+    if getattr(world, 'normalised', False):
+        return ast.unparse(module.tree) + '\n'
+    return module.source
+
+
+def _overrides(world: World) -> dict:
     overrides = dict(world.overrides)
+    if getattr(world, 'normalised', False):
+        for m in world.modules.values():
+            overrides[m.relpath] = ast.unparse(m.tree) + '\n'
+    return overrides
+
+
+def multi_variant(world: World, edits: dict[str, Callable[[ast.Module], None]]) -> World:
+    for modname in edits:
+        if modname not in world.modules:
+            raise AnalysisError(f'variant: module {modname} not found')
+    if getattr(world, 'normalised', False):
+        return _tree_variant(world, edits)
+    overrides = _overrides(world)
     for modname, edit in edits.items():
         if modname not in world.modules:
             raise AnalysisError(f'variant: module {modname} not found')
         module = world.modules[modname]
-        tree = ast.parse(module.source)
+        tree = ast.parse(_source(world, module))
         edit(tree)
         ast.fix_missing_locations(tree)
         overrides[module.relpath] = ast.unparse(tree) + '\n'
     return World(world.root, overrides)
+
+
+def _like(new: ast.AST, old: ast.AST) -> ast.AST:
+    """New nodes resolve names in the module the replaced code was written in (inlined code keeps its origin)."""
+    om = getattr(old, '_omod', None)
+    if om:
+        for n in ast.walk(new):
+            n._omod = om  # type: ignore[attr-defined]
+    return new
 
 
 def find_def(tree: ast.AST, path: str) -> ast.AST:
@@ -71,7 +117,7 @@ def replace_expr(scope: ast.AST, old: str, new: str, count: int | None = 1) -> N
             nonlocal hits
             if isinstance(node, ast.expr) and ast.unparse(node) == old_n:
                 hits += 1
-                return ast.parse(new.strip(), mode='eval').body
+                return _like(ast.parse(new.strip(), mode='eval').body, node)
             return super().generic_visit(node)
 
     T().visit(scope)
@@ -116,7 +162,7 @@ def replace_stmt(scope: ast.AST, old: str, new: str, prefix: bool = False) -> No
                 text = ast.unparse(st)
                 if (prefix and text.startswith(old_n)) or (not prefix and text == old_n):
                     idx = block.index(st)
-                    block[idx : idx + 1] = new_nodes
+                    block[idx : idx + 1] = [_like(n, st) for n in new_nodes]
                     hits += 1
     if hits != 1:
         raise AnalysisError(f'variant anchor missing or ambiguous: statement {old!r} matched {hits} times')
